@@ -867,6 +867,7 @@ package res
 //@ func (s *Service) ResetAll()
 //@   requires s != nil && !isNil(s.nc) && muxOK(s.Mux)
 //@   modifies all
+//@   ensures frame: muxOK(s.Mux) && s.Mux == old(s.Mux) && same(s.nc, old(s.nc)) && same(s.onServe, old(s.onServe))
 //@   callback onError benign
 //@   ghost call Service.reset#1 before :: assert owned: same(arg_resources, s.resetResources) && same(arg_access, s.resetAccess)
 //@
@@ -1255,12 +1256,20 @@ package res
 //@   nobody
 //@   requires m != nil
 //@   modifies alloc
+//@ # NATS delivers non-nil messages on the request channel
+//@ trusted func builtin.recvRequest(c chan *nats.Msg) (m *nats.Msg, ok bool)
+//@   ensures imp(ok, m != nil)
 //@ func (s *Service) startListener(ch chan *nats.Msg)
-//@   nobody
-//@   requires s != nil
+//@   requires s != nil && muxOK(s.Mux)
 //@   modifies all
+//@   callsite recv#1 builtin.recvRequest
+//@   # every message taken from the channel is handed to handleRequest (which hands it to the worker queue)
+//@   loop 1 invariant s != nil && muxOK(s.Mux)
+//@ # the OnServe callback is client code: it may use the service and its Mux only through their methods
 //@ func callback.onServeCB(self ref, s *Service)
+//@   requires muxOK(s.Mux)
 //@   modifies all
+//@   ensures muxOK(s.Mux)
 //@ func (s *Service) serve(nc Conn) (rerr error)
 //@   thread init
 //@   requires s != nil && !isNil(nc) && muxOK(s.Mux) && s.inChannelSize >= 0 && s.workerCount >= 0 && forallge(q, nextRef(), !chclosed[q])
